@@ -7,6 +7,7 @@ import OPModel.Drive.C05
 import OPModel.Drive.C07
 import OPModel.Drive.C20
 import OPModel.Drive.C03
+import OPModel.Drive.C03b
 import OPModel.Drive.C02
 import OPModel.Drive.C16
 import OPModel.Drive.C17
@@ -28,6 +29,7 @@ def handle (line : String) : String :=
   | "pockets" :: args => Drive.pockets args
   | "entu" :: args => Drive.entu args
   | "assign" :: args => Drive.assign args
+  | "defaults" :: args => Drive.defaults args
   | "site" :: args => Drive.site args
   | "sheets" :: args => Drive.sheets args
   | "wrapper" :: args => Drive.wrapper args
